@@ -260,6 +260,38 @@ pub fn run(ctx: &Ctx) -> Report {
                     ops.insert(at.min(ops.len()), Op::Scheme(d));
                 }
             }
+            // one string in two roles: a string of the expression (pattern, file name, literal text)
+            // is also a device path, rendered first, last or right after its own prefix/extension
+            let us = t.user_strings();
+            if !us.is_empty() && stable_hash(&(&t, ops.len())) % 5 == 0 {
+                let s0 = us[(stable_hash(&ops) % us.len() as u64) as usize].clone();
+                match stable_hash(&(&s0, &ops)) % 4 {
+                    0 => ops.insert(0, Op::Scheme(s0)),
+                    1 => ops.push(Op::Scheme(s0)),
+                    2 => {
+                        ops.insert(0, Op::Scheme(format!("{s0}/")));
+                        ops.insert(1, Op::Scheme(s0));
+                    }
+                    _ => {
+                        ops.insert(0, Op::Scheme(s0.clone()));
+                        ops.insert(1, Op::Scheme(format!("/{s0}")));
+                    }
+                }
+            }
+            // spellings of one path that a path library would identify, rendered back to back
+            if let Some(Op::Scheme(p)) = ops.first().cloned() {
+                if !p.is_empty() && stable_hash(&(&p, ops.len(), 7u8)) % 6 == 0 {
+                    let v = match stable_hash(&(&p, 9u8)) % 6 {
+                        0 => format!("{p}/"),
+                        1 => p.replacen('/', "//", 1),
+                        2 => p.replacen('/', "/./", 1),
+                        3 => format!("{p}/."),
+                        4 => format!("./{p}"),
+                        _ => p.trim_end_matches('/').to_string(),
+                    };
+                    ops.insert(1, Op::Scheme(v));
+                }
+            }
             // make repeats likely: sometimes render the first path again at the end
             if let Some(Op::Scheme(p)) = ops.first().cloned() {
                 if ops.len() % 2 == 0 {
